@@ -16,6 +16,13 @@ SPEC = {
             "canonical well-formed strings must decode to Python's value, non-canonical trailing bits are unconstrained. "
             "rot13: all 0..2-byte strings + random. escape_url (2 modes), escape_controls (2 modes), escape_quotes: all 0..2-byte "
             "strings + 10k/100k random each. netloc: every port 0..65535 x 16 (quick) / 110 (thorough) colon-free hosts. "
+            "Early-call probe: every function called once from a static initializer of the harness TU; the stored results are "
+            "logged in place of the first 11 records of every shard and judged like any other record (keys early-call:*). "
+            "Alignment sweep: base64_encode / base64_decode (valid encodings and arbitrary strings) / rot13 inputs of every size 0..80 "
+            "and 10 larger sizes at pointer offsets 1..15 of a 16-byte aligned block, flush against the block end and with 16 spare "
+            "bytes behind; result must equal the aligned (logged, judged) result. Dense sweeps: base64 encode->decode round trip and "
+            "encoded length for EVERY input length 0..16500 (quick) / 0..70000 (thorough), both alphabets, every 8th / 64th pair "
+            "compared with Python base64; every length 0..5000 for rot13 and all five escaper modes. "
             "Length ladder: every size 2^k+d (k=3..20) and 3*2^k+d (k=2..18), d in -2..+2 (above 64 KiB only -1..+1 in the quick "
             "tier), plus 12286/12290 and 1 MiB+1 = 157 (quick) / 173 (thorough) sizes, for base64_encode (2 alphabets x uniform / "
             "sextet-62/63-heavy data), base64_decode (valid encodings of the encoded lengths next to each size with all padding shapes + "
@@ -65,6 +72,12 @@ SPEC = {
         "big:b64dec:urlsafe:rejected:64K-1M", "big:rot13:>=1MiB", "big:escape_url:keep-slash:>=1MiB", "big:escape_url:escape-slash:>=1MiB",
         "big:escape_controls:ascii:>=1MiB", "big:escape_controls:utf8:>=1MiB", "big:escape_quotes:>=1MiB",
         "big:escape_url:*:4K-16K", "big:escape_controls:*:4K-16K", "big:escape_quotes:4K-16K",
+        "early-call:b64enc:std:*", "early-call:b64enc:urlsafe:*", "early-call:b64dec:valid:*", "early-call:b64dec:malformed:*",
+        "early-call:rot13:*", "early-call:escape_url:keep-slash:*", "early-call:escape_url:escape-slash:*",
+        "early-call:escape_controls:ascii:*", "early-call:escape_controls:utf8:*", "early-call:escape_quotes:*", "early-call:netloc",
+        "alignment:base64_encode:std:len<=80", "alignment:base64_encode:urlsafe:large", "alignment:base64_decode:std:len<=80",
+        "alignment:base64_decode:urlsafe:large", "alignment:rot13:std:len<=80", "alignment:rot13:std:large",
+        "b64sweep:sampled-vs-python:std:*", "b64sweep:sampled-vs-python:urlsafe:*", "exec:b64sweep:std:*", "exec:b64sweep:urlsafe:*",
         "netloc:host-1char*", "netloc:host-255+*", "netloc:*highbytes*", "netloc:*:ports-from0", "netloc:*:ports-to65535",
     ],
     "exhaustive": {"quick": False, "thorough": False},
